@@ -368,32 +368,10 @@ func (r *Registry) Arrivals(token string) []Arrival {
 	return out
 }
 
-// HTTPUpstream is a scripted HTTP/1.1 server. The request header X-Script holds comma separated behaviours, one
-// per attempt (the last one repeats): ok | sNNN | close | hang | slowN | gate | gateclose | big<N>
-type HTTPUpstream struct {
-	Name  string
-	Addr  string
-	ln    net.Listener
-	srv   *http.Server
-	cmu   sync.Mutex
-	conns map[net.Conn]bool
-}
-
-// OpenConns is the number of connections the upstream currently has open (the truth about the proxy's pool).
-func (u *HTTPUpstream) OpenConns() int {
-	u.cmu.Lock()
-	defer u.cmu.Unlock()
-	return len(u.conns)
-}
-
-// NewHTTPUpstream starts a scripted upstream on a free loopback port.
-func NewHTTPUpstream(name string, reg *Registry) *HTTPUpstream {
-	ln, err := net.Listen("tcp", "127.0.0.1:0")
-	if err != nil {
-		panic(err)
-	}
-	u := &HTTPUpstream{Name: name, Addr: ln.Addr().String(), ln: ln, conns: map[net.Conn]bool{}}
-	u.srv = &http.Server{Handler: http.HandlerFunc(func(w http.ResponseWriter, req *http.Request) {
+// scriptedHandler is the behaviour table shared by the scripted HTTP/1 and HTTP/2 upstreams; closeOf closes the
+// connection the request came in on.
+func scriptedHandler(name string, reg *Registry, closeOf func(w http.ResponseWriter, req *http.Request)) http.HandlerFunc {
+	return func(w http.ResponseWriter, req *http.Request) {
 		body, _ := io.ReadAll(req.Body)
 		a := Arrival{Token: req.Header.Get("X-Token"), Upstream: name, Method: req.Method, URI: req.RequestURI, Host: req.Host,
 			Header: req.Header.Clone(), Body: string(body), Conn: req.RemoteAddr}
@@ -409,13 +387,7 @@ func NewHTTPUpstream(name string, reg *Registry) *HTTPUpstream {
 		}
 		a.Behave = b
 		reg.record(a)
-		closeConn := func() {
-			if hj, ok := w.(http.Hijacker); ok {
-				if c, _, err := hj.Hijack(); err == nil {
-					c.Close()
-				}
-			}
-		}
+		closeConn := func() { closeOf(w, req) }
 		reply := func(code int, body string) {
 			w.Header().Set("X-Token", a.Token)
 			w.Header().Set("X-Upstream", name)
@@ -461,6 +433,40 @@ func NewHTTPUpstream(name string, reg *Registry) *HTTPUpstream {
 			reply(n, a.Token)
 		default:
 			reply(200, a.Token)
+		}
+	}
+}
+
+// HTTPUpstream is a scripted HTTP/1.1 server. The request header X-Script holds comma separated behaviours, one
+// per attempt (the last one repeats): ok | sNNN | close | hang | slowN | gate | gateclose | big<N>
+type HTTPUpstream struct {
+	Name  string
+	Addr  string
+	ln    net.Listener
+	srv   *http.Server
+	cmu   sync.Mutex
+	conns map[net.Conn]bool
+}
+
+// OpenConns is the number of connections the upstream currently has open (the truth about the proxy's pool).
+func (u *HTTPUpstream) OpenConns() int {
+	u.cmu.Lock()
+	defer u.cmu.Unlock()
+	return len(u.conns)
+}
+
+// NewHTTPUpstream starts a scripted upstream on a free loopback port.
+func NewHTTPUpstream(name string, reg *Registry) *HTTPUpstream {
+	ln, err := net.Listen("tcp", "127.0.0.1:0")
+	if err != nil {
+		panic(err)
+	}
+	u := &HTTPUpstream{Name: name, Addr: ln.Addr().String(), ln: ln, conns: map[net.Conn]bool{}}
+	u.srv = &http.Server{Handler: scriptedHandler(name, reg, func(w http.ResponseWriter, req *http.Request) {
+		if hj, ok := w.(http.Hijacker); ok {
+			if c, _, err := hj.Hijack(); err == nil {
+				c.Close()
+			}
 		}
 	})}
 	u.srv.ConnState = func(c net.Conn, st http.ConnState) {
